@@ -4,12 +4,14 @@
   Proved in general, for every meaning `L` of the built-ins (Lemmas/CsvSrcA.lean, CsvSrcB*.lean, CsvSrcW*.lean, CsvSrcR*.lean): every cell
   parser and `__format_custom`, `__parse_header` (= the model's `headerIndex`), and the whole WRITE side: `write_csv` of a well-formed
   WBS description is the model's `writeCsv` of the records.  The READ side is proved down to the record layer (`read_csv` = `raws_to_wbs`
-  on the parsed rows, success direction); `raws_to_wbs` = the model's `rebuildForest`, the error direction and so the full reader are
+  on the parsed rows, success direction; the first two loops of `raws_to_wbs` - create the tasks, hang the hierarchy - as explicit folds on
+  the store: Lemmas/CsvSrcS*.lean); the predecessor loop, the reading of those folds as the model's `rebuildForest`, the error direction and so the full reader are
   tied by kernel-evaluated runs of the translated program on concrete files (Lemmas/CsvSrcCheckC.lean - imported here, so a translated
   source that no longer reproduces them breaks this module): tests at the level of the kernel, not theorems about every input.
 -/
 import PjVerif.Lemmas.CsvSrcD
 import PjVerif.Lemmas.CsvSrcB
+import PjVerif.Lemmas.CsvSrcS
 import PjVerif.Lemmas.CsvSrcCheckA
 import PjVerif.Lemmas.CsvSrcCheckB
 import PjVerif.Lemmas.CsvSrcCheckC
